@@ -144,6 +144,38 @@ Definition x_pol_session (x : sx) : sx :=
   let h := map to_pop (to_list x) in
   L (map (fun oa => session_report (fst oa) (snd oa)) (combine h (prun (R:=Q2) q2_eqb psim0 h))).
 
+(* Processor level.  request: [m, [[off, tree] ...], [op ...]] with ops [0, input] with_polarized_input, [1] noise
+   assignment, [2, off, tree] add, [3, k] min_detected_photons_filter, [4] probs.
+   answer per op: [9], or for probs [2] (raises) / [0, passes filter?, merged distribution, rows, mass] *)
+Fixpoint to_cops (m : nat) (cur : pinput Q2) (l : list sx) : list (cop Q2 * pinput Q2) :=
+  match l with
+  | [] => []
+  | x :: r =>
+      match to_Z (nthx 0 x) with
+      | 0%Z => let inp := to_pinput (nthx 1 x) in (CInput inp, inp) :: to_cops m inp r
+      | 1%Z => (CNoise, cur) :: to_cops m cur r
+      | 2%Z => (CAdd (to_nat (nthx 1 x)) (to_tree (nthx 2 x)), cur) :: to_cops m cur r
+      | 3%Z => (CFilter (to_nat (nthx 1 x)), cur) :: to_cops m cur r
+      | _ => (CProbs (allstates (2 * m) (nphotons cur)), cur) :: to_cops m cur r
+      end
+  end.
+Definition processor_report (oi : cop Q2 * pinput Q2) (a : option (bool * list q2)) : sx :=
+  match fst oi, a with
+  | CProbs ts, Some (pass, amps) =>
+      match session_report (OpQuery (snd oi) ts) (Some amps) with
+      | L (st :: rest) => L (st :: of_bool pass :: rest)
+      | y => y
+      end
+  | CProbs _, None => L [I 2]
+  | _, _ => L [I 9]
+  end.
+Definition x_pol_processor (x : sx) : sx :=
+  let m := to_nat (nthx 0 x) in
+  let items := map (fun it => (to_nat (nthx 0 it), to_tree (nthx 1 it))) (to_list (nthx 1 x)) in
+  let h := to_cops m [] (to_list (nthx 2 x)) in
+  L (map (fun oa => processor_report (fst oa) (snd oa))
+         (combine h (crun (R:=Q2) q2_eqb (mkpproc m items None None None None) (map fst h)))).
+
 Definition all_labels : list label := [LH; LV; LD; LA; LR; LL].
 (* () -> for H V D A R L: [a, b, jones_label, jones_standard] *)
 Definition x_labels (_ : sx) : sx :=
